@@ -1030,6 +1030,32 @@ pub mod http1 {
         }
     }
 
+    fn version(minor_version: u8) -> http::Version {
+        if minor_version == 0 {
+            http::Version::HTTP_10
+        } else {
+            http::Version::HTTP_11
+        }
+    }
+
+    /// `http1_codec::encode_response` on a head built from these parts; `None` = the `http` crate refuses a part
+    pub fn encode_response(minor_version: u8, status: u16, headers: &[(String, Vec<u8>)]) -> Option<Vec<u8>> {
+        let mut b = http::Response::builder().version(version(minor_version)).status(status);
+        for (n, v) in headers {
+            b = b.header(n.as_str(), v.as_slice());
+        }
+        Some(crate::http1_codec::encode_response(b.body(()).ok()?.into_parts().0).to_vec())
+    }
+
+    /// `http1_codec::encode_request`
+    pub fn encode_request(method: &str, uri: &str, minor_version: u8, headers: &[(String, Vec<u8>)]) -> Option<Vec<u8>> {
+        let mut b = http::Request::builder().method(method).uri(uri).version(version(minor_version));
+        for (n, v) in headers {
+            b = b.header(n.as_str(), v.as_slice());
+        }
+        Some(crate::http1_codec::encode_request(&b.body(()).ok()?.into_parts().0).to_vec())
+    }
+
     impl Download {
         pub fn write(&mut self, data: Bytes) -> std::io::Result<Bytes> {
             self.0.write(data)
